@@ -17,7 +17,6 @@ package dmap
 import (
 	"context"
 	"errors"
-	"strings"
 	"sync"
 	"time"
 
@@ -86,10 +85,13 @@ func (f *fragment) Move(part *partitions.Partition, name string, owners []discov
 	if err != nil {
 		return err
 	}
+	// name is the DMap's own name: the balancer has already removed the fragment
+	// prefix. Removing it once more would merge a DMap called "dmap.x" into the
+	// DMap "x" on the receiver.
 	fp := &fragmentPack{
 		PartID:  part.ID(),
 		Kind:    part.Kind(),
-		Name:    strings.TrimPrefix(name, "dmap."),
+		Name:    name,
 		Payload: payload,
 	}
 	value, err := msgpack.Marshal(fp)
